@@ -28,7 +28,13 @@ func (o *c17Op) done(n int64, err error, wire, written int) { o.N, o.Err, o.Wire
 
 //go:norace
 func runC17(e *Env) {
-	rs, ws := bufSizes[e.P(len(bufSizes))], bufSizes[e.P(len(bufSizes))]
+	rs, ws := e.PSize(bufSizes, 5000), e.PSize(bufSizes, 5000)
+	if e.P(5) == 0 {
+		rs = 0
+	}
+	if e.P(5) == 0 {
+		ws = 0
+	}
 	nOps := 2 + e.P(10)
 	conn := simnet.NewConn(e.Sim, "c17")
 	conn.Frag = e.P(4)
@@ -41,12 +47,12 @@ func runC17(e *Env) {
 		switch o.Kind {
 		case 0:
 			id++
-			o.Data = [][]byte{fillPayload(id, c17Sizes[e.P(len(c17Sizes))])}
+			o.Data = [][]byte{fillPayload(id, e.PSize(c17Sizes, 6000))}
 		case 1:
 			k := 1 + e.P(3)
 			for j := 0; j < k; j++ {
 				id++
-				o.Data = append(o.Data, fillPayload(id, c17Sizes[e.P(len(c17Sizes))]))
+				o.Data = append(o.Data, fillPayload(id, e.PSize(c17Sizes, 6000)))
 			}
 		}
 		ops = append(ops, o)
@@ -57,7 +63,7 @@ func runC17(e *Env) {
 	var inChunks [][]byte
 	for i := 0; i < nIn; i++ {
 		id++
-		c := fillPayload(id, c17Sizes[e.P(len(c17Sizes))])
+		c := fillPayload(id, e.PSize(c17Sizes, 6000))
 		inChunks = append(inChunks, c)
 		inbound = append(inbound, c...)
 	}
